@@ -112,4 +112,24 @@ inductive RelOut where
   | blocks (bs : List SI) (strand : Strand)
   deriving DecidableEq, Repr
 
+/-- an `Optional[int]` local used as an int (arithmetic, `<`/`>=`, `min`/`max`): `None` raises TypeError -/
+def optGet : Option Int → PyR Int
+  | none => .error .TypeError
+  | some v => .ok v
+
+/-- `xs[-1] = v`.  On an empty list Python raises IndexError, which has no constructor in `PyExc`; it is reported as
+    `.KeyError`, the other `LookupError` subclass (the translator refuses `except KeyError` in the loop fragment, and
+    `KeyError` has no documented counterpart, so a kernel that could take this path agrees with no model answer). -/
+def listSetLast (xs : List Int) (v : Int) : PyR (List Int) :=
+  if xs = [] then .error .KeyError else .ok (xs.dropLast ++ [v])
+
+/-- result of the translated `CompoundInterval._combine_blocks`: `same` = `return self`; `empty` =
+    `return EmptyLocation()`; `rebuilt starts ends` = the ARGUMENTS of the final
+    `CompoundInterval(new_starts, new_ends, self.strand, new_parent)` (the constructor itself is not translated). -/
+inductive CombineOut where
+  | same
+  | empty
+  | rebuilt (starts ends : List Int)
+  deriving DecidableEq, Repr
+
 end BioCantor.GenP
